@@ -105,6 +105,9 @@ structure PState where
   name : List Nat := []
   topoJSON : List Nat := []
   topoSVG : List Nat := []
+  /-- the JSON text from which the parsed topology object handed out by `GetTopology` was built.  Line 304 allocates a
+  fresh `topology.Topology` before every `json.Unmarshal`, so the object is a function of that one text only. -/
+  topoSrc : List Nat := []
   avail : List (Nat × Nat) := []        -- association list, newest binding of a key first
   deriving DecidableEq, Repr
 
@@ -120,7 +123,8 @@ def applyMsg (s : PState) (m : OutMsg) : PState :=
     | some kv => { s with avail := kv.foldl (fun a e => e :: a) s.avail }
     | none => s
   match m.topo with
-  | some t => { s with topoJSON := setIfNonEmpty s.topoJSON t.json, topoSVG := setIfNonEmpty s.topoSVG t.svg }
+  | some t => { s with topoJSON := setIfNonEmpty s.topoJSON t.json, topoSrc := setIfNonEmpty s.topoSrc t.json,
+                       topoSVG := setIfNonEmpty s.topoSVG t.svg }
   | none => s
 
 def finalState (s : PState) (h : List OutMsg) : PState := h.foldl applyMsg s
